@@ -4,6 +4,6 @@ CONSTANTS
   RethrowUnmatched = TRUE
   FinallyAlways = TRUE
   ObjectMatch = TRUE
-  ObjectMatchValues = TRUE
+  ObjectMatchValues = FALSE
   ShardK = 0
   ShardN = 1
